@@ -11,6 +11,10 @@ for d in sorted((p for p in (root / 'seeded').iterdir() if p.is_dir() and re.ful
     m = json.loads((d / 'meta.json').read_text())
     cell = lambda s: str(s).replace('|', '/').replace('\n', ' ')[:150]
     det = ', '.join(m.get('detected_by', [])) or '**none**'
+    if m.get('obsolete') and not m.get('detected_by'):
+        det = 'none - overtaken by a repair (own demo passes)'
+    if m.get('not_portable'):
+        det = f"{det} (at {m.get('repo_head_when_confirmed', 'an earlier head')}; not replayable now)"
     rows.append(f"| {d.name} | {cell(m.get('summary', ''))} | {cell(m.get('needs', ''))} | {det} | {'yes' if m.get('strengthening') else ''} |")
 table = '| seed | change (one line) | needs | caught by (quick) | check strengthened first? |\n|---|---|---|---|---|\n' + '\n'.join(rows) + '\n'
 p = root / 'DESIGN.md'
@@ -18,4 +22,4 @@ s = p.read_text()
 new, n = re.subn(r'\| seed \| change \(one line\) \| needs \| caught by \(quick\) \| check strengthened first\? \|\n\|---\|---\|---\|---\|---\|\n(\| C\d\d-\d+ \|.*\n)+', lambda _: table, s)
 assert n == 1, n
 p.write_text(new)
-print(len(rows), 'rows;', sum('**none**' in r for r in rows), 'undetected;', sum(r.endswith('| yes |') for r in rows), 'needed strengthening')
+print(len(rows), 'rows;', sum('**none**' in r for r in rows), 'undetected;', sum('overtaken' in r for r in rows), 'overtaken;', sum(r.endswith('| yes |') for r in rows), 'needed strengthening')
